@@ -55,6 +55,9 @@ pub fn run(seed: u64, thorough: bool) {
         Shape { hash: "sha256_192", levels: vec![(2, 1), (3, 1), (3, 1)] },
         Shape { hash: "shake256_128", levels: vec![(3, 1), (3, 5)] },
         Shape { hash: "shake256_256", levels: vec![(3, 5), (3, 1)] },
+        // 512 signatures over three levels (roll-overs of two levels), with the toy hasher so that the
+        // model re-signs along the way
+        Shape { hash: "toy_128", levels: vec![(3, 1), (3, 5), (3, 1)] },
     ];
     if thorough {
         shapes.push(Shape { hash: "sha256_128", levels: vec![(3, 1), (3, 1), (3, 1), (3, 1)] });
